@@ -17,6 +17,7 @@ import (
 	"github.com/ProtonMail/gluon/db"
 	"github.com/ProtonMail/gluon/imap"
 	"github.com/ProtonMail/gluon/limits"
+	"github.com/ProtonMail/gluon/rfc822"
 
 	"verifharness/hconn"
 	"verifharness/imapc"
@@ -123,7 +124,9 @@ func (d Dump) Get(name string) *MboxDump {
 // ---- literals ----
 
 // Literal i has a hash class; literals of one class differ only in headers outside the hashed set (Date, Message-Id,
-// X-Variant), which rfc822.GetMessageHash ignores.
+// X-Variant), which rfc822.GetMessageHash ignores. Class -1 ("raw"): GetMessageHash fails for the literal (a text part
+// declared base64 whose body is base64 followed by a plain-text footer) - such a message is APPEND-able; the recovery
+// mailbox de-duplicates it by the hash of its raw bytes.
 type Literals struct {
 	Class []int
 	Bytes [][]byte
@@ -140,6 +143,37 @@ func (l *Literals) Add(class int, variant int) int {
 	l.Class = append(l.Class, class)
 	l.Bytes = append(l.Bytes, []byte(b))
 	return i
+}
+
+// AddUnhashable adds a literal for which rfc822.GetMessageHash returns an error.
+func (l *Literals) AddUnhashable(k int) int {
+	i := len(l.Bytes)
+	b := fmt.Sprintf("Date: Tue, 02 Jan 2024 11:00:%02d +0000\r\nFrom: list@example.com\r\nTo: b@example.com\r\nSubject: list mail %d\r\n"+
+		"Content-Type: text/plain; charset=utf-8\r\nContent-Transfer-Encoding: base64\r\n\r\nSGVsbG8gd29ybGQ=\r\n-- \r\n"+
+		"You receive mail %d because you are subscribed to the list.\r\n", k%60, k, k)
+	l.Class = append(l.Class, -1)
+	l.Bytes = append(l.Bytes, []byte(b))
+	return i
+}
+
+// Validate checks the table against the real rfc822.GetMessageHash: class -1 <=> error, equal hashes <=> equal class.
+func (l *Literals) Validate() error {
+	hs := make([]string, len(l.Bytes))
+	for i, b := range l.Bytes {
+		h, err := rfc822.GetMessageHash(b)
+		if (err != nil) != (l.Class[i] < 0) {
+			return fmt.Errorf("literal %d: class %d but GetMessageHash error = %v", i, l.Class[i], err)
+		}
+		hs[i] = h
+	}
+	for i := range hs {
+		for j := range hs {
+			if l.Class[i] >= 0 && l.Class[j] >= 0 && (hs[i] == hs[j]) != (l.Class[i] == l.Class[j]) {
+				return fmt.Errorf("literals %d and %d: classes %d/%d, hashes equal = %v", i, j, l.Class[i], l.Class[j], hs[i] == hs[j])
+			}
+		}
+	}
+	return nil
 }
 
 var reGluonID = regexp.MustCompile(`(?i)^X-Pm-Gluon-Id: [^\r\n]*\r\n`)
@@ -216,6 +250,9 @@ func (w *World) newGen() error {
 
 func NewWorld(cfg Config, lits *Literals) (*World, error) {
 	w := &World{Cfg: cfg, Lits: lits}
+	if err := lits.Validate(); err != nil {
+		return nil, err
+	}
 	if err := w.newGen(); err != nil {
 		return nil, err
 	}
